@@ -4,6 +4,7 @@ package main
 // intrinsics (vInt, vAssert, ...).
 
 import (
+	"bytes"
 	"fmt"
 	"go/token"
 	"go/types"
@@ -728,6 +729,32 @@ func (e *Engine) installExternals() {
 			panic(engineErr("%s on bytes that are not a JSON document is not modelled", name))
 		}
 	}
+	x["bytes.Contains"] = func(fr *frame, a []Value) Value {
+		hay, needle := a[0].([]Value), a[1].([]Value)
+		nb := make([]byte, 0, len(needle))
+		for _, c := range needle {
+			u, ok := c.(uint64)
+			if !ok {
+				panic(engineErr("bytes.Contains with a symbolic pattern"))
+			}
+			nb = append(nb, byte(u))
+		}
+		if d, ok := asDoc(hay); ok {
+			if m := reQuotedWord.FindSubmatch(nb); m != nil {
+				return e.docHasStringToken(d, string(m[1]))
+			}
+			panic(engineErr("bytes.Contains(document, %q): only a quoted word is modelled", nb))
+		}
+		hb := make([]byte, 0, len(hay))
+		for _, c := range hay {
+			u, ok := c.(uint64)
+			if !ok {
+				panic(engineErr("bytes.Contains on symbolic bytes"))
+			}
+			hb = append(hb, byte(u))
+		}
+		return bytes.Contains(hb, nb)
+	}
 	x["encoding/json.Valid"] = func(fr *frame, a []Value) Value { return e.jsonValid(a[0].([]Value)) }
 
 	// ---- os (files are not modelled)
@@ -1242,6 +1269,8 @@ func (e *Engine) lookupMethodByName(t types.Type, name string) *ssa.Function {
 }
 
 // ---- recogniser for the SQL statements of stores/sqlite (used by the database/sql model)
+
+var reQuotedWord = regexp.MustCompile(`^"([A-Za-z0-9_ .:-]*)"$`)
 
 var (
 	reSelEvents = regexp.MustCompile(`^select position, type, data, timestamp from events where position (>=|>|<=|<|!=|=) \? order by position( asc)?( limit \?)?$`)
